@@ -90,6 +90,16 @@ let scontent_of_string s =
                                 | _ -> failwith "bad char") (String.split_on_char '|' chars))
   | _ -> failwith "bad content"
 
+(* python values: N | B0 | B1 | I<int> | S<hex of code points (ASCII)> *)
+let pyval_of_string s =
+  if s = "N" then VNone else
+  match s.[0] with
+  | 'B' -> VBool (s = "B1")
+  | 'I' -> VInt (zi (String.sub s 1 (String.length s - 1)))
+  | 'S' -> VStr (bytes_of_hex (String.sub s 1 (String.length s - 1)))
+  | _ -> failwith "bad pyval"
+let string_of_ozres = function Ok o -> "OK " ^ soz o | Err e -> "ERR " ^ string_of_exn e
+
 let handle toks =
   match toks with
   | ["classify"; size; border; rows] ->
@@ -126,6 +136,16 @@ let handle toks =
                (eci = "1") (boost = "1") (ozi count) with
        | Ok cs -> "OK " ^ String.concat " | " (List.map code_body cs)
        | Err e -> "ERR " ^ string_of_exn e)
+  | "encargs" :: error :: version :: mode :: mask :: eci :: micro :: boost :: parts ->
+      let ps = List.map part_of_string parts in
+      (match encode_args (fun m -> List.map (fun p -> { p with p_mode = m }) ps) (pyval_of_string error) (pyval_of_string version)
+               (pyval_of_string mode) (pyval_of_string mask) (eci = "1") (pyval_of_string micro) (boost = "1") with
+       | Ok c -> string_of_code c
+       | Err e -> "ERR " ^ string_of_exn e)
+  | ["norm_version"; v] -> string_of_ozres (normalize_version (pyval_of_string v))
+  | ["norm_mode"; v] -> string_of_ozres (normalize_mode (pyval_of_string v))
+  | ["norm_mask"; v; micro] -> string_of_ozres (normalize_mask (pyval_of_string v) (micro = "1"))
+  | ["norm_error"; v; accept] -> string_of_ozres (normalize_errorlevel (pyval_of_string v) (accept = "1"))
   | ["find_mode"; hex] -> string_of_int (int_of_z (find_mode (bytes_of_hex hex)))
   | ["mask_scores"; rows] ->
       let r = rows_of_string rows in
